@@ -26,18 +26,18 @@ theorem facts_keepOld : generatedFacts.keepOld = true := by decide
 /-- No-op: building again with nothing changed executes no action and leaves plz-out exactly as it was —
     from ANY starting plz-out, for every well-formed target list and requested set. -/
 theorem C03_noop (r : Repo K A F N C) (sel : K → Bool) (out : Out K C S N H) (hwf : WFList sel [] r.targets) :
-    build generatedFacts exec ruleSer pathSer r sel (build generatedFacts exec ruleSer pathSer r sel out).1 =
-      ((build generatedFacts exec ruleSer pathSer r sel out).1, []) := by
-  have h := buildList_fresh generatedFacts exec ruleSer pathSer facts_cmp r sel r.targets [] out hwf
+    build generatedFacts (mvCoded generatedFacts pathSer) exec ruleSer pathSer r sel (build generatedFacts (mvCoded generatedFacts pathSer) exec ruleSer pathSer r sel out).1 =
+      ((build generatedFacts (mvCoded generatedFacts pathSer) exec ruleSer pathSer r sel out).1, []) := by
+  have h := buildList_fresh generatedFacts (mvCoded generatedFacts pathSer) exec ruleSer pathSer facts_cmp r sel r.targets [] out hwf
     (by intro k hk; simp at hk)
-  exact buildList_all_fresh generatedFacts exec ruleSer pathSer r sel r.targets _ h.2
+  exact buildList_all_fresh generatedFacts (mvCoded generatedFacts pathSer) exec ruleSer pathSer r sel r.targets _ h.2
 
 /-- Only-if-changed, one target: if the action of an already-built target runs, then the rule pre-image or the
     (name, pre-image) list of its inputs differs from what was recorded when it was last built. -/
 theorem C03_only_if_changed (r : Repo K A F N C) (out : Out K C S N H) (t : Target K A F)
     (ins : List (N × C)) (c : C) (st : Stamp S N H)
     (hin : inputs r out t = some ins) (ho : out t.key = some (c, st))
-    (hran : (buildOne generatedFacts exec ruleSer pathSer r out t).2 = true) :
+    (hran : (buildOne generatedFacts (mvCoded generatedFacts pathSer) exec ruleSer pathSer r out t).2 = true) :
     st.rule ≠ ruleSer t.attrs ∨ st.ins ≠ ins.map (fun p => (p.1, pathSer p.2)) := by
   unfold buildOne at hran
   rw [hin] at hran
@@ -56,8 +56,8 @@ theorem C03_only_if_changed (r : Repo K A F N C) (out : Out K C S N H) (t : Targ
 /-- …and conversely an unchanged target (fresh stamp) is not run. -/
 theorem C03_unchanged_not_run (r : Repo K A F N C) (out : Out K C S N H) (t : Target K A F)
     (h : Fresh ruleSer pathSer r out t) :
-    buildOne generatedFacts exec ruleSer pathSer r out t = (out, false) :=
-  buildOne_noop generatedFacts exec ruleSer pathSer r out t h
+    buildOne generatedFacts (mvCoded generatedFacts pathSer) exec ruleSer pathSer r out t = (out, false) :=
+  buildOne_noop generatedFacts (mvCoded generatedFacts pathSer) exec ruleSer pathSer r out t h
 
 /-- moveOutput: when a re-executed action produces an output with the same path pre-image, the old output
     stays in place. -/
@@ -65,13 +65,13 @@ theorem C03_same_output_kept (r : Repo K A F N C) (out : Out K C S N H) (d : Tar
     (ins : List (N × C)) (c : C) (st : Stamp S N H)
     (hin : inputs r out d = some ins) (ho : out d.key = some (c, st))
     (hsame : pathSer (exec d.attrs ins) = pathSer c) :
-    ((buildOne generatedFacts exec ruleSer pathSer r out d).1 d.key).map Prod.fst = some c := by
+    ((buildOne generatedFacts (mvCoded generatedFacts pathSer) exec ruleSer pathSer r out d).1 d.key).map Prod.fst = some c := by
   unfold buildOne
   rw [hin]
   simp only [ho]
   split
   · simp [ho]
-  · simp [facts_keepOld, hsame.symm]
+  · simp [mvCoded, facts_keepOld, hsame.symm]
 
 theorem depIns_congr_tree (r : Repo K A F N C) (out out' : Out K C S N H) (deps : List K)
     (h : ∀ d ∈ deps, (out' d).map Prod.fst = (out d).map Prod.fst) : depIns r out' deps = depIns r out deps := by
@@ -92,21 +92,21 @@ theorem C03_cutoff (r : Repo K A F N C) (out : Out K C S N H) (d t : Target K A 
     (hin : inputs r out d = some ins) (ho : out d.key = some (c, st))
     (hsame : pathSer (exec d.attrs ins) = pathSer c)
     (hfresh : Fresh ruleSer pathSer r out t) :
-    buildOne generatedFacts exec ruleSer pathSer r (buildOne generatedFacts exec ruleSer pathSer r out d).1 t =
-      ((buildOne generatedFacts exec ruleSer pathSer r out d).1, false) := by
+    buildOne generatedFacts (mvCoded generatedFacts pathSer) exec ruleSer pathSer r (buildOne generatedFacts (mvCoded generatedFacts pathSer) exec ruleSer pathSer r out d).1 t =
+      ((buildOne generatedFacts (mvCoded generatedFacts pathSer) exec ruleSer pathSer r out d).1, false) := by
   apply buildOne_noop
   obtain ⟨tins, tc, hti, hto⟩ := hfresh
   refine ⟨tins, tc, ?_, ?_⟩
-  · have : inputs r (buildOne generatedFacts exec ruleSer pathSer r out d).1 t = inputs r out t := by
+  · have : inputs r (buildOne generatedFacts (mvCoded generatedFacts pathSer) exec ruleSer pathSer r out d).1 t = inputs r out t := by
       simp only [inputs]
       rw [depIns_congr_tree r out _ t.deps]
       intro k _
       by_cases hk : k = d.key
       · subst hk
         rw [C03_same_output_kept exec ruleSer pathSer r out d ins c st hin ho hsame, ho]; rfl
-      · rw [buildOne_other generatedFacts exec ruleSer pathSer r out d k hk]
+      · rw [buildOne_other generatedFacts (mvCoded generatedFacts pathSer) exec ruleSer pathSer r out d k hk]
     rw [this]; exact hti
-  · rw [buildOne_other generatedFacts exec ruleSer pathSer r out d t.key hne]; exact hto
+  · rw [buildOne_other generatedFacts (mvCoded generatedFacts pathSer) exec ruleSer pathSer r out d t.key hne]; exact hto
 
 -- non-vacuity: a fresh target exists (build one target from nothing, it is then fresh)
 example : Fresh (S := Nat) (H := Nat) id id
